@@ -24,7 +24,9 @@ pub fn three_types() -> Vec<TypeDef> {
     let mut t = crate::props::c01::simple_types();
     t.push(TypeDef {
         name: "tc".into(),
-        fields: vec![FieldDef { name: "z".into(), ty: FT::Int, opt: false, alias: "int".into() }],
+        // an optional field, left out by about half of the events (a flush then writes no column for it, or no block for a
+        // zone): compaction must carry the values that are there and must not invent any
+        fields: vec![FieldDef { name: "z".into(), ty: FT::Int, opt: false, alias: "int".into() }, FieldDef { name: "w".into(), ty: FT::Int, opt: true, alias: "int".into() }],
     });
     t
 }
@@ -35,7 +37,7 @@ fn ev3(n_types: usize, n_ctx: usize) -> BoxedStrategy<Ev> {
     }
     prop_oneof![
         2 => simple_ev(2, n_ctx),
-        1 => (0..n_ctx, -3i64..4).prop_map(|(ctx, z)| Ev { ty: 2, ctx, vals: vec![json!(z)] }),
+        1 => (0..n_ctx, -3i64..4, prop::option::weighted(0.5, 1i64..4)).prop_map(|(ctx, z, w)| Ev { ty: 2, ctx, vals: vec![json!(z), w.map(|v| json!(v)).unwrap_or(Value::Null)] }),
     ]
     .boxed()
 }
@@ -52,7 +54,7 @@ fn case_strategy(tier: Tier) -> BoxedStrategy<Case> {
                         e = match ty {
                             0 => Ev { ty: 0, ctx: e.ctx, vals: vec![json!(1), json!("a")] },
                             1 => Ev { ty: 1, ctx: e.ctx, vals: vec![json!(0.5), json!("v0")] },
-                            _ => Ev { ty: 2, ctx: e.ctx, vals: vec![json!(2)] },
+                            _ => Ev { ty: 2, ctx: e.ctx, vals: vec![json!(2), if e.ctx % 2 == 0 { json!(2) } else { Value::Null }] },
                         };
                     }
                     Op::Store(e)
@@ -95,6 +97,19 @@ pub fn observe(w: &mut World, types: &[TypeDef], n_ctx: usize, what: &str, count
             let missing: Vec<i64> = want.difference(&got).cloned().collect();
             let extra: Vec<i64> = got.difference(&want).cloned().collect();
             return Ok(Some((if !missing.is_empty() { "event-lost" } else { "event-resurrected" }.into(), json!({"at": what, "cmd": q, "missing": missing, "extra": extra, "log": w.db.log}))));
+        }
+        // values, not only membership: an equality on every optional integer field (a null cell leaves the row undecided)
+        for (fi, f) in t.fields.iter().enumerate().filter(|(_, f)| f.opt && f.ty == FT::Int) {
+            let must: BTreeSet<i64> = w.model.events.iter().filter(|e| e.ty == ti && e.vals[fi] == json!(2)).map(|e| e.k).collect();
+            let may: BTreeSet<i64> = w.model.events.iter().filter(|e| e.ty == ti && e.vals[fi].is_null()).map(|e| e.k).collect();
+            let qv = format!("QUERY {} RETURN [k] WHERE {} = 2", t.name, f.name);
+            let rv = w.db.cmd(&qv)?;
+            let gotv: BTreeSet<i64> = ks_of(&rv).into_iter().collect();
+            let missing: Vec<i64> = must.difference(&gotv).cloned().collect();
+            let extra: Vec<i64> = gotv.iter().filter(|k| !must.contains(k) && !may.contains(k)).cloned().collect();
+            if !missing.is_empty() || !extra.is_empty() {
+                return Ok(Some(("value-changed".into(), json!({"at": what, "cmd": qv, "missing": missing, "extra": extra, "log": w.db.log}))));
+            }
         }
         if count_ok {
             let qc = format!("QUERY {} COUNT", t.name);
@@ -239,7 +254,7 @@ pub fn run(ctx: &Ctx) -> i32 {
     let mut report = Report::new(
         "C05",
         "exploration",
-        "generated (config incl. fan-in 2-4, 2-3 event types stored in bursts so that types live in different subsets of segments, FLUSH / barrier / restart, compaction rounds); around every round all data is flushed and QUERY RETURN [k], COUNT, COUNT BY context_id and REPLAY <type> FOR <ctx> are compared with the model per type and context (no duplicates, nothing lost, nothing resurrected); retired inputs leave the live list and their directories disappear. The crash clause (death part-way through a round) is explored by C01/C11's crash-point histories. Non-trivial: a round with a plan over >= 2 event types.",
+        "generated (config incl. fan-in 2-4, 2-3 event types stored in bursts so that types live in different subsets of segments, FLUSH / barrier / restart, compaction rounds); around every round all data is flushed and QUERY RETURN [k], an equality on the optional field (values, not only membership), COUNT, COUNT BY context_id and REPLAY <type> FOR <ctx> are compared with the model per type and context (no duplicates, nothing lost, nothing resurrected); retired inputs leave the live list and their directories disappear. The crash clause (death part-way through a round) is explored by C01/C11's crash-point histories. Non-trivial: a round with a plan over >= 2 event types.",
     );
     report.assumptions = vec!["rounds are single compaction passes per shard through the production CompactionWorker (hook compact_shard)".into()];
     replay_known(ctx, &stats, &mut report, &replay);
